@@ -138,6 +138,19 @@ Theorem C03_call_delivers_accepted_frame :
     dcurr st' = dcurr st + length body + 1 /\ skipn (dcurr st') buf' = tl.
 Proof. exact dec_call_complete. Qed.
 
+(* LIVENESS for a reader that provides space: between messages the caller makes room (any new prefix,
+   a gap of the unread length + 16) and calls once — then EVERY complete frame at the front of the
+   unread input is delivered, one per step, in order, and exactly the frames are consumed.  With
+   C03_history_delivers_frames (nothing else is ever delivered) this is "nothing lost, nothing
+   invented" for such a reader. *)
+Theorem C03_spaced_reader_delivers_every_frame :
+  forall v ms W, frames_of v ms W ->
+    forall s tl (steps : list (list byte * list nat * list nat)),
+      idle_between v s -> skipn (dcurr (hs_st s)) (hs_buf s) = W ++ tl -> length steps = length ms ->
+      let s' := fold_left (fun s x => spaced_step v s (fst (fst x)) (snd (fst x)) (snd x)) steps s in
+      idle_between v s' /\ hs_msgs s' = hs_msgs s ++ ms /\ skipn (dcurr (hs_st s')) (hs_buf s') = tl.
+Proof. exact spaced_reader_delivers. Qed.
+
 (* THE COMMAND DECODER (mpt_decode_command: zero-terminated text, message header prepended in
    place).  [tinv G st buf]: between messages, or inside one whose text bytes [G] so far sit behind
    the header.  One call from such a state: a message is header ++ the text up to the next zero;
@@ -207,3 +220,4 @@ Print Assumptions C03_history_delivers_frames.
 Print Assumptions C03_call_delivers_accepted_frame.
 Print Assumptions C03_command_call_honest.
 Print Assumptions C03_command_history_delivers.
+Print Assumptions C03_spaced_reader_delivers_every_frame.
